@@ -378,7 +378,7 @@ def c03(ctx):
     if ctx.quick:
         jobs = crash_jobs(ctx, "c03", 16, 100, 0, 2, 9) + crash_jobs(ctx, "c03", 6, 40, 0, 2, 9, first=400, keypad=2600)
     else:
-        jobs = crash_jobs(ctx, "c03", 32, 200, 0, 3, 14) + crash_jobs(ctx, "c03", 8, 100, 0, 3, 12, first=400, keypad=2600)
+        jobs = crash_jobs(ctx, "c03", 32, 200, 0, 3, 14) + crash_jobs(ctx, "c03", 8, 100, 0, 2, 12, first=400, keypad=2600)
     agg = Agg().add(runner.run_jobs(jobs))
     return runner.finish(
         "C03", "fault_enumeration", ctx.tier, ctx.seed, ctx.t0, agg,
@@ -401,7 +401,7 @@ def c05(ctx):
     if ctx.quick:
         jobs = crash_jobs(ctx, "c05", 14, 60, 0, 2, 6) + crash_jobs(ctx, "c05", 2, 40, 0, 2, 6, first=400, keypad=2600)
     else:
-        jobs = crash_jobs(ctx, "c05", 40, 200, 0, 3, 16) + crash_jobs(ctx, "c05", 6, 100, 0, 3, 16, first=400, keypad=2600)
+        jobs = crash_jobs(ctx, "c05", 40, 200, 0, 3, 16) + crash_jobs(ctx, "c05", 6, 100, 0, 2, 16, first=400, keypad=2600)
     agg = Agg().add(runner.run_jobs(jobs))
     return runner.finish(
         "C05", "fault_enumeration", ctx.tier, ctx.seed, ctx.t0, agg,
